@@ -3,6 +3,7 @@ package main
 import (
 	"fmt"
 	"go/types"
+	"os"
 	"sort"
 	"strings"
 
@@ -181,6 +182,9 @@ func (ex *Exec) havocLoop(st *State, fr *Frame, l *Loop) {
 	ghosts := map[string]bool{}
 	ex.bodyEffects(fr.fn, l, fr, mods, cells, ghosts, 0)
 	ex.lastLoopMods, ex.lastLoopCells, ex.lastLoopGhosts = mods, cells, ghosts
+	if dbg := os.Getenv("GOVC_DEBUG_MODS"); dbg != "" && strings.Contains(ex.sel, dbg) {
+		fmt.Fprintf(os.Stderr, "loop mods of %s: %v\n", ex.sel, modNames(mods))
+	}
 	if mods["*"] {
 		ex.havocAll(st)
 	} else {
@@ -325,6 +329,9 @@ func (ex *Exec) bodyEffects(fn *ssa.Function, l *Loop, fr *Frame, mods map[strin
 					ex.bodyEffects(callee, sub, subFr, mods, cells, ghosts, depth+1)
 				}
 				for n, wr := range ex.w.callMods(c) {
+					if n == "*" && os.Getenv("GOVC_DEBUG_MODS") != "" && strings.Contains(ex.sel, os.Getenv("GOVC_DEBUG_MODS")) {
+						fmt.Fprintf(os.Stderr, "  * from call %s in %s\n", c.String(), shortName(fn.String()))
+					}
 					addMod(mods, n, wr)
 				}
 			}
